@@ -126,6 +126,12 @@ def check_positions(run, cname, text, impl_defs, impl_usages, impl_undecl, same_
         sd = [x for x in sp["defs"] if x["line"] == d["line"] and x["name"] == d["name"]]
         if not sd:
             continue
+        # the yield line is a navigation target (go-to-implementation lands there): it is a line on which the fixture's OWN
+        # body yields - where the visitors reach (recorded finding otherwise), never a yield of a nested scope (a lambda)
+        if "covered_generator" in sd[0] and (sd[0]["generator"], sd[0]["yield_line"]) == (sd[0]["covered_generator"], sd[0]["covered_yield_line"]) \
+                and d["yield_line"] != sd[0]["yield_line"]:
+            report(f"definition {d['name']} at line {d['line']}: go-to-implementation would land on line {d['yield_line']}; the fixture's "
+                   f"own first yield is on line {sd[0]['yield_line']}", None)
         fn = sd[0]["func_name"]
         if seg != fn:
             report(f"definition {d['name']}@{d['line']}: name span {d['start']}-{d['end']} covers {seg!r}, the function is {fn!r}", "C15-def-name-search")
@@ -307,6 +313,8 @@ def run(tier, seed):
     # the witnesses of the recorded findings go through the same oracle as the generated programs
     progs = [("wit%d" % i, "test_gen.py", t, {"witness"}) for i, t in enumerate(WITNESSES)]
     progs += [("uo%d" % i, "test_gen.py", t, {"witness", "usage-only"}) for i, t in enumerate(USAGE_ONLY)]
+    # one fixed program per yield form: the yield line is a navigation target (go-to-implementation)
+    progs += [("yw_" + kind, "conftest.py", src.text(), set(src.features) | {"fixed"}) for (kind, src) in proggen.yield_programs()]
     for i in range(n):
         src = proggen.gen_program(r.rng)
         body_refs = r.rng.random() < 0.5
